@@ -211,7 +211,9 @@ def check_A(m, placement, times_mode, cfg, acc, anc="0"):
         nonsample = samples is not None and any(not rts.flags[u] for u in samples)
         must_fail = dup or (nonsample and iam)
         kinds = [expected_for(rts, j, nodes, iam, alleles_arg)[0] for j in sids]
-        kwc = dict(kw)
+        # arguments equal to their documented default are sometimes omitted, sometimes None
+        kwc = AF.omit_defaults(kw, dict(samples=None, isolated_as_missing=True, alleles=None, copy=True, left=None, right=None),
+                               salt=len(sids) + int(copy), none_ok=("isolated_as_missing",))
         if samples is not None:
             # the sample list in one of the forms a caller may pass (deterministic in the list)
             form, kwc["samples"] = AF.pick(samples, salt=int(iam))
